@@ -99,6 +99,12 @@ class BddGen:
                 self.live.append(k2)
             self.q("size %s" % self.a(kk, False))
             self.q("dot 2 %s %s" % (self.a(kk, False), self.a(kk, True)))
+        self.classes["family:wide"] += 1
+
+    def huge_vars_epilogue(self):
+        """appended AFTER the random part of a wide history, so that no later line (the malformed-argument stratum draws arbitrary
+        register numbers) can hand these registers to one_sat / paths / cube, which go through i32 literals"""
+        r = self.rng
         # variable numbers >= 2^31: they cannot be written as i32 literals (cube / clause / cofactor_cube, and one_sat / paths
         # print them as negative numbers: documented bound), so their registers are kept out of the pool the random operations
         # draw from and only the operations that take u32 variables are applied to them
@@ -125,7 +131,6 @@ class BddGen:
             self.q("dot 1 %s" % self.a(f1, False))
             self.q("bracket %s" % self.a(f1, True))
             self.classes["vars>=2^31"] += 1
-        self.classes["family:wide"] += 1
 
     # ---- bookkeeping
     REPLAYABLE = ("ite", "and", "or", "xor", "eq", "imply", "constrain", "restrict", "compose", "subst", "substm", "cofcube", "andmany", "ormany", "expr")
